@@ -551,7 +551,10 @@ func conclude(id, tier string, seed int, props *Props, outs []harnessOutcome, sm
 				art["stack"] = g.Samples[0].Stack
 			}
 			status := "not-attempted"
-			if ho.Spec.NativeReplay == "" && len(g.Samples) > 0 {
+			if g.Label == "alloc-bound" {
+				// the bound on allocations is an obligation of the engine; a native run allocates silently
+				status = "not-applicable: allocation bounds are checked by the engine only"
+			} else if ho.Spec.NativeReplay == "" && len(g.Samples) > 0 {
 				ok, out := nativeReplay(props, ho.Spec, tier, g)
 				replayed++
 				switch {
